@@ -417,6 +417,6 @@ def witnesses(R, tier):
 
 LEVEL_TEXT = ("Decides on all CFG paths the borrow/release pairing of the per-chunk reference count at every site that moves a reference, the "
               "deallocation guard (last reference only), the closed set of sending functions and the Drop obligations; plus compile-fail witnesses "
-              "(send consumes the sample, received samples are immutable, loans are not clonable). The count's value over histories is not decided.")
+              "(send consumes the sample, received samples are immutable, loans are not clonable). Also: every chunk taken out of a connection is wrapped into an owning object or released on every path; slot indices are never ranks. The count's value over histories is not decided.")
 LEVEL_NOTE = "Trusted: rustc MIR and type checker. Not decided: conservation over arbitrary histories."
 TECHNIQUE = "static analysis: acquire/release pairing on MIR paths, only-under-arm rules, who-may-call over the resolved call graph, compile-fail witnesses"
